@@ -83,9 +83,16 @@ def minor_instance(r, gdesc, with_phase=None):
                 carried = [m for m in ms if m.pos == p]
                 frag[p] = carried[0].op if carried and r.random() < 0.9 else "_"
             frags.append(frag)
+    # realignment read counts for the catalogued indels, as a BAM sample brings them: [reads without, reads with] per indel,
+    # whose total is not the pile-up depth of the site (the per-copy depth of such a variant is taken from these counts)
+    indel_table = None
+    indels = [(p, o) for (p, o) in gene.mutations if o[:3] in ("ins", "del")]
+    if indels and r.random() < 0.35:
+        tab = {(p, o): sum(x[2] for x in q) for p, o, q in table}
+        indel_table = [[p, o, r.choice([5, 10, 20, 30]), tab.get((p, o), 0) if r.random() < 0.85 else 0] for (p, o) in indels]
     desc = {"gene": instances.gene_short(gdesc), "structure": structure, "planted": planted, "table": table, "profile": pdesc,
             "fragments": [[[p, o] for p, o in f.items()] for f in frags] if frags is not None else None,
-            "max_solutions": r.choice([1, 1, 1, 2])}
+            "max_solutions": r.choice([1, 1, 1, 2]), "indel_table": indel_table}
     return desc
 
 
@@ -164,7 +171,8 @@ def build(desc):
     sam = None
     if desc.get("fragments") is not None:
         sam = FakeSam({f"f{i}": {p: o for p, o in fr} for i, fr in enumerate(desc["fragments"])})
-    cov = Coverage(gene, prof, sam, table, None, {})
+    indel = {(p, o): (n, y) for p, o, n, y in desc["indel_table"]} if desc.get("indel_table") else None
+    cov = Coverage(gene, prof, sam, table, indel, {})
     return gene, gid, prof, cn_sol, cov
 
 
@@ -603,6 +611,7 @@ def tie(ctx):
         stats["no_major_solution"] += not real["major_sols"]
         stats["with_phase"] += d.get("fragments") is not None
         stats["crosswise"] += "crosswise" in d
+        stats["with_indel_table"] += bool(d.get("indel_table"))
         for call in real["calls"]:
             stats["no_minor_solution"] += not call["result"]
             for s in call["result"]:
